@@ -15,7 +15,7 @@ def profile(prop, tier):
          "clients": {"coder": 4, "designer": 2, "converter": 3, "analyst": 2, "shuffler": 1, "trimmer": 1,
                      "rng": 1, "clock": 0.5}}
     if prop == "C18":
-        p["clients"] = {"coder": 1, "designer": 0.5, "converter": 1, "analyst": 2, "shuffler": 6, "trimmer": 0.3,
+        p["clients"] = {"coder": 4, "designer": 0.5, "converter": 0.5, "analyst": 1.5, "shuffler": 6, "trimmer": 1.5,
                         "rng": 3, "clock": 1}
         p["max_ops"] = (10, 40)
     elif prop == "C19":
@@ -139,7 +139,10 @@ class Sim(object):
                 arcs = G.rows_to_arcs(G.DOC_ROWS)
             else:
                 arcs = G.random_arcs(rng, k, shape)
-            self.do({"op": "NEW", "kind": "graph", "name": self.fresh_name("G"), "k": k, "arcs": arcs})
+            new = {"op": "NEW", "kind": "graph", "name": self.fresh_name("G"), "k": k, "arcs": arcs}
+            if rng.random() < 0.35:
+                new["lm_order"] = rng.getrandbits(20)      # successor lists in arbitrary (user-supplied) order
+            self.do(new)
         for k in sorted(set(ks)):
             self.do({"op": "NEW", "kind": "mask", "name": self.fresh_name("K"), "k": k, "bits": G.random_mask(rng, k),
                      "dtype": rng.choice(["bool", "int"])})
@@ -166,7 +169,7 @@ class Sim(object):
                     self.provenance[sname] = (name, start, None, False, None)
         self.do({"op": "NEW", "kind": "strand", "name": self.fresh_name("S"),
                  "s": "".join(rng.choice(M.NT) for _ in range(rng.randint(0, 20)))})
-        if self.prop == "C19" or rng.random() < 0.5:
+        if self.prop in ("C19", "C18") or rng.random() < 0.5:
             self.new_pair()
 
     def new_pair(self):
@@ -179,8 +182,10 @@ class Sim(object):
             # trim generated designs, as the experiments do
             src = None
         name = self.fresh_name("P")
-        self.do({"op": "NEW", "kind": "pair", "name": name, "from": rng.choice(graphs),
-                 "numpy_keys": rng.random() < 0.5})
+        new = {"op": "NEW", "kind": "pair", "name": name, "from": rng.choice(graphs), "numpy_keys": rng.random() < 0.5}
+        if rng.random() < 0.3:
+            new["lm_order"] = rng.getrandbits(20)
+        self.do(new)
         self.flags[name] = (rng.random() < 0.7, rng.random() < 0.7)
         return name
 
@@ -189,7 +194,7 @@ class Sim(object):
         rng, store = self.rng, self.world.store
         fn = weighted(rng, [("encode", 4), ("decode", 3), ("set_vt", 1), ("repair_dna", 2), ("path_matching", 1),
                             ("filter.valid", 1), ("conv", 2)])
-        acc = self.pick("acc", prefer_pair=self.prop == "C19")
+        acc = self.pick("acc", prefer_pair=self.prop in ("C19", "C18"))
         if fn == "conv":
             return self.client_conversions()
         if fn == "set_vt":
@@ -205,7 +210,8 @@ class Sim(object):
         if acc is None:
             return None
         rows, k = self.rows_of(acc), self.k_of(acc)
-        table = self.pick("table", lambda n: self.k_of(n) == k) if rng.random() < 0.4 else None
+        table = self.pick("table", lambda n: self.k_of(n) == k) if rng.random() < (0.85 if self.prop == "C18" else 0.4) \
+            else None
         if fn == "encode":
             bits = self.pick("bits")
             safe = safe_starts(rows)
